@@ -162,10 +162,49 @@ def gen_plan(rng, max_channels=4, rekey=False):
         'closer': rng.choice(['client', 'server', 'both', 'conn']),
         'algs': {},
     }
+    return clamp_plan(plan)
+
+
+def est_packets(plan, ch, direction):
+    if direction == 'c2s':
+        unit = min(plan['srv_pktsize'], plan['srv_window'])
+    else:
+        unit = min(ch['pktsize'], ch['window'])
+
+    total = sum(op[1] for op in ch[direction] if op[0] == 'w')
+    # text units may take up to 4 bytes each
+    return (total * (4 if ch.get('text') else 1)) // max(1, unit)
+
+
+def clamp_plan(plan, max_pkts=120):
+    """Trim write sizes so no stream needs more than max_pkts packets"""
+
+    for ch in plan['channels']:
+        for direction in ('c2s', 's2c'):
+            if direction == 'c2s':
+                unit = min(plan['srv_pktsize'], plan['srv_window'])
+            else:
+                unit = min(ch['pktsize'], ch['window'])
+
+            budget = max_pkts * unit // (4 if ch.get('text') else 1)
+
+            for op in ch[direction]:
+                if op[0] == 'w':
+                    op[1] = min(op[1], max(0, budget))
+                    budget -= op[1]
+
     return plan
 
 
-def valid_plan(plan):
+def valid_plan(plan, max_pkts=400):
+    try:
+        for ch in plan['channels']:
+            for direction in ('c2s', 's2c'):
+                if est_packets(plan, ch, direction) > max_pkts:
+                    return False
+    except (KeyError, TypeError, IndexError):
+        return False
+
     try:
         if plan['srv_window'] < 1 or plan['srv_pktsize'] < 1:
             return False
@@ -208,6 +247,7 @@ class Endpoint:
         self.sent_eof = False
         self.started = world.sim.loop.create_future()
         self.write_paused = False
+        self.hold = None
 
     def got(self, data, datatype):
         dt = 1 if datatype == STDERR else 0
@@ -411,6 +451,9 @@ class ChanRun:
 
         try:
             while True:
+                if ep.hold is not None:
+                    await ep.hold
+
                 data = await reader.read(n)
 
                 if not data:
@@ -680,7 +723,14 @@ def run_channels(plan, sched_seed=None, sched_replay=None, setup=None,
     world.run_phase()
 
     if between is not None:
-        between(world, run)
+        if not isinstance(between, (list, tuple)):
+            between = [between]
+
+        for fn in between:
+            # each stage runs at a quiescent point; a stage that starts more
+            # work returns True to have the world run to quiescence again
+            if fn(world, run) and not world.sim.loop.capped:
+                world.run_phase()
 
     if not world.sim.loop.capped and not world.sim.main.done():
         world.open_gate('io-done')
